@@ -1,4 +1,5 @@
 import QtVerif.Proofs.Backup
+import QtVerif.Proofs.BackupTrace
 /-!
 C20 — backup then restore reproduces the same configuration.
 
@@ -6,6 +7,17 @@ Model: `QtVerif.Model.Backup` on the configuration types of C07. Source: ports a
 with distinct ids); target hub `st` in ANY other state. Hypotheses: source ports well-formed (`WF`: attribute support
 fixed by the driver class, expression texts canonical under C03's print fixpoint — invariants of every reachable state,
 proved in C07) and the two hubs run the same static configuration (`TargetOK`).
+
+What is covered, and what is NOT:
+* PUT /ports: ids of the document (`restore_roundtrip`), ids outside it (`restore_roundtrip_outside_document`), the
+  GET /ports document of the result (`restore_get_ports_identical`), the first failing entry on the actual
+  intermediate state (`reject_names_first_failing_entry`), the switches along a small-step trace of the try/finally
+  (`switches_off_during_restore_and_on_afterwards`). PUT /device, PUT /devices: `restore_device`, `restore_slaves`,
+  `restore_slaves_doc`.
+* NOT MODELLED: GET/PUT /peripherals (the fourth part of a backup in the frontend's backup/restore), the limit on
+  the number of virtual ports, sequences, slave ports. "Full strength" below always means: of the PORTS part of the
+  statement, on this model. The missing peripherals clause is named `restoreRoundtripWithPeripheralsFull` at the end
+  of the file; it is stated over an abstract peripherals API and is NOT proved of anything.
 -/
 namespace QtVerif.C20
 open QtVerif.Config QtVerif.Backup
@@ -53,7 +65,10 @@ def srcMap (src : List (String × Port)) : String → String :=
 def SourceAcyclic (cfg : Cfg) (lc : LoopCheck) (src : List (String × Port)) : Prop :=
   ∀ x ∈ src, ∀ c, entryExpr cfg (docOf x.1 x.2) = some c → lc (srcMap src) x.1 c = false
 
-/-- **restore ∘ backup on a whole document** (full strength, REPAIRED `put_ports`: `clearFirst = true`): for every
+/-- **restore ∘ backup on a whole document, the ids OF the document** (REPAIRED `put_ports`: `clearFirst = true`;
+full strength for the ports part only, and only together with `restore_roundtrip_outside_document` /
+`restore_get_ports_identical`, which say what happens to the ids the document does not mention; peripherals are not
+modelled — see the header): for every
 acyclic source (any list of well-formed ports with distinct ids), every monotone loop check and every target state
 running the same static configuration — whatever expressions its ports carry — PUT /ports ACCEPTS the document
 obtained from GET /ports of the source, and afterwards the target holds under every entry's id a port with the
@@ -73,11 +88,214 @@ theorem restore_roundtrip (cfg : Cfg) (lc : LoopCheck) (src : List (String × Po
       (fun c hc => hmono m (srcMap src) x.1 c hm (hacy x hx c hc)))
   exact key
 
+/-- **the ids the document does NOT mention** (any document, repaired or not, accepted or rejected): PUT /ports leaves
+under such an id exactly what its reset phase left (`startPort`): nothing if the target had no port or a VIRTUAL port
+there — every extra virtual port of the target has disappeared —, and otherwise the target's non-virtual port in its
+reset state: same definition, same value, same attributes except the expression, which the repaired code clears
+(`clearExpr`; `port.reset()` = `load_from_data({})` itself applies no attribute, so in the code as in the model the
+"reset state" of a static port is NOT a factory state: a backup restores a static port's attributes only if the
+document mentions it). -/
+theorem restore_roundtrip_outside_document (cfg : Cfg) (lc : LoopCheck) (clearFirst : Bool) (st : BState)
+    (docs : List PortDoc) (id : String) (hid : id ∉ docs.map (·.id)) :
+    (putPorts cfg lc clearFirst st docs).1.ports id = startPort clearFirst (st.ports id) ∧
+    (st.ports id = none → (putPorts cfg lc clearFirst st docs).1.ports id = none) ∧
+    (∀ p, st.ports id = some p → p.pdef.virtual = true → (putPorts cfg lc clearFirst st docs).1.ports id = none) ∧
+    (∀ p, st.ports id = some p → p.pdef.virtual = false →
+      (putPorts cfg lc clearFirst st docs).1.ports id = some (clearExpr clearFirst p) ∧
+      (clearExpr clearFirst p).pdef = p.pdef ∧ (clearExpr clearFirst p).value = p.value ∧
+      (∀ n, n ≠ "expression" → (clearExpr clearFirst p).attrs n = p.attrs n) ∧
+      (clearFirst = true → exprText (some (clearExpr clearFirst p)) = "")) := by
+  have h0 : (putPorts cfg lc clearFirst st docs).1.ports id = startPort clearFirst (st.ports id) :=
+    putBody_other cfg lc _ docs id hid
+  have hc := startPort_cases clearFirst (st.ports id)
+  refine ⟨h0, fun h => h0.trans (hc.1 h), fun p h hv => h0.trans (hc.2.1 p h hv), fun p h hv => ?_⟩
+  refine ⟨h0.trans (hc.2.2 p h hv), ?_, ?_, ?_, ?_⟩
+  · cases clearFirst <;> rfl
+  · cases clearFirst <;> rfl
+  · intro n hn
+    cases clearFirst
+    · rfl
+    · simp only [clearExpr, if_true, hn, if_false]
+  · intro hcf
+    subst hcf
+    have := exprText_startPort_true (some p)
+    rw [(startPort_cases true (some p)).2.2 p rfl hv] at this
+    exact this
+
+/-- **the restored hub answers GET /ports like the source** (repaired `put_ports`; ports part, on this model). Under
+the hypotheses of `restore_roundtrip`:
+(a) GET /ports of the result, read over the ids of the document, IS the document (same entries — definition,
+    attributes, value —, same order);
+(b) every virtual port of the result is a virtual port of the source: no virtual port of the target survives, none is
+    invented;
+(c) a port of the result that the document does not mention is a non-virtual port of the target in its reset state;
+(d) if moreover the document mentions every non-virtual port of the target (same static configuration on both hubs:
+    the source reports them all), the result holds NO port outside the document, so over ANY enumeration of ids
+    GET /ports of the result equals GET /ports of the source. -/
+theorem restore_get_ports_identical (cfg : Cfg) (lc : LoopCheck) (src : List (String × Port)) (st : BState)
+    (nd : (src.map (·.1)).Nodup)
+    (hsrc : ∀ x ∈ src, WF cfg x.2 ∧ TargetOK cfg (st.ports x.1) x.2)
+    (hmono : Mono lc) (hacy : SourceAcyclic cfg lc src) :
+    (putPorts cfg lc true st (src.map (fun x => docOf x.1 x.2))).2 = .ok ∧
+    getPorts (putPorts cfg lc true st (src.map (fun x => docOf x.1 x.2))).1.ports (src.map (·.1)) =
+      src.map (fun x => docOf x.1 x.2) ∧
+    (∀ id q, (putPorts cfg lc true st (src.map (fun x => docOf x.1 x.2))).1.ports id = some q →
+      q.pdef.virtual = true → ∃ x ∈ src, x.1 = id ∧ x.2.pdef.virtual = true ∧ docOf id q = docOf x.1 x.2) ∧
+    (∀ id q, (putPorts cfg lc true st (src.map (fun x => docOf x.1 x.2))).1.ports id = some q →
+      id ∉ src.map (·.1) → ∃ p, st.ports id = some p ∧ p.pdef.virtual = false ∧ q = clearExpr true p) ∧
+    ((∀ id p, st.ports id = some p → p.pdef.virtual = false → id ∈ src.map (·.1)) →
+      (∀ id, id ∉ src.map (·.1) →
+        (putPorts cfg lc true st (src.map (fun x => docOf x.1 x.2))).1.ports id = none) ∧
+      ∀ ids, getPorts (putPorts cfg lc true st (src.map (fun x => docOf x.1 x.2))).1.ports ids =
+        getPorts (srcPorts src) ids) := by
+  obtain ⟨hok, hin⟩ := restore_roundtrip cfg lc src st nd hsrc hmono hacy
+  have hmapid : (src.map (fun x => docOf x.1 x.2)).map (·.id) = src.map (·.1) := by
+    rw [List.map_map]; rfl
+  have hout : ∀ id, id ∉ src.map (·.1) →
+      (putPorts cfg lc true st (src.map (fun x => docOf x.1 x.2))).1.ports id = startPort true (st.ports id) :=
+    fun id hid => (restore_roundtrip_outside_document cfg lc true st _ id (by rw [hmapid]; exact hid)).1
+  have hdoc : ∀ x ∈ src,
+      ((putPorts cfg lc true st (src.map (fun x => docOf x.1 x.2))).1.ports x.1).map (docOf x.1) =
+        some (docOf x.1 x.2) := by
+    intro x hx
+    obtain ⟨r, hr, h1, h2, h3⟩ := hin x hx
+    rw [hr, Option.map_some, docOf_congr x.1 r x.2 h1 h2 h3]
+  have houtcases : ∀ id q, (putPorts cfg lc true st (src.map (fun x => docOf x.1 x.2))).1.ports id = some q →
+      id ∉ src.map (·.1) → ∃ p, st.ports id = some p ∧ p.pdef.virtual = false ∧ q = clearExpr true p := by
+    intro id q hq hid
+    rw [hout id hid] at hq
+    have hc := startPort_cases true (st.ports id)
+    cases hp : st.ports id with
+    | none => rw [hc.1 hp] at hq; cases hq
+    | some p =>
+      cases hv : p.pdef.virtual with
+      | true => rw [hc.2.1 p hp hv] at hq; cases hq
+      | false =>
+        rw [hc.2.2 p hp hv] at hq
+        exact ⟨p, rfl, hv, (Option.some.inj hq).symm⟩
+  refine ⟨hok, ?_, ?_, houtcases, ?_⟩
+  · exact filterMap_map_of_forall src (·.1) _ (fun x => docOf x.1 x.2) hdoc
+  · intro id q hq hv
+    by_cases hid : id ∈ src.map (·.1)
+    · obtain ⟨x, hx, rfl⟩ := List.mem_map.mp hid
+      obtain ⟨r, hr, h1, h2, h3⟩ := hin x hx
+      rw [hr] at hq
+      have hrq : r = q := Option.some.inj hq
+      rw [← hrq] at hv ⊢
+      exact ⟨x, hx, rfl, by rw [← h1]; exact hv, docOf_congr x.1 r x.2 h1 h2 h3⟩
+    · rw [hout id hid] at hq
+      rw [startPort_not_virtual true _ q hq] at hv
+      cases hv
+  · intro hcover
+    have hnone : ∀ id, id ∉ src.map (·.1) →
+        (putPorts cfg lc true st (src.map (fun x => docOf x.1 x.2))).1.ports id = none := by
+      intro id hid
+      cases hq : (putPorts cfg lc true st (src.map (fun x => docOf x.1 x.2))).1.ports id with
+      | none => rfl
+      | some q =>
+        obtain ⟨p, hp, hv, _⟩ := houtcases id q hq hid
+        exact absurd (hcover id p hp hv) hid
+    refine ⟨hnone, fun ids => ?_⟩
+    have hpt : ∀ id, ((putPorts cfg lc true st (src.map (fun x => docOf x.1 x.2))).1.ports id).map (docOf id) =
+        (srcPorts src id).map (docOf id) := by
+      intro id
+      by_cases hid : id ∈ src.map (·.1)
+      · obtain ⟨x, hx, rfl⟩ := List.mem_map.mp hid
+        rw [hdoc x hx]
+        simp only [srcPorts, find_of_nodup src nd x hx, Option.map_some]
+      · rw [hnone id hid]
+        simp only [srcPorts, find_none_of_not_mem src id hid, Option.map_none]
+    simp only [getPorts]
+    congr 1
+    funext id
+    exact hpt id
+
+/-- **a rejected PUT /ports names the FIRST failing entry, judged on the ACTUAL intermediate state** (repaired or not,
+any loop check, any document, any state): the document splits as `pre ++ d :: post` with `d.id` the id the error
+carries; the prefix `pre` on its own is ACCEPTED from the state the reset phase leaves (so no earlier entry fails);
+`d` is refused, with exactly the reported reason, by the loop body run on the port registered under its id and on the
+expressions carried by the ports in the state `pre` left behind — not on some invented state —; and what the rejected
+call leaves registered is that state plus whatever the creation step of `d` added (entries of `post` are never
+looked at). -/
+theorem reject_names_first_failing_entry (cfg : Cfg) (lc : LoopCheck) (clearFirst : Bool) (st : BState)
+    (docs : List PortDoc) (id : String) (e : EntryErr) (h : (putPorts cfg lc clearFirst st docs).2 = .err id e) :
+    ∃ pre d post, docs = pre ++ d :: post ∧ d.id = id ∧
+      (putPorts cfg lc clearFirst st pre).2 = .ok ∧
+      restoreChk cfg lc (exprMap (putPorts cfg lc clearFirst st pre).1.ports)
+        ((putPorts cfg lc clearFirst st pre).1.ports d.id) d = .error e ∧
+      (putPorts cfg lc clearFirst st docs).1.ports =
+        upd (putPorts cfg lc clearFirst st pre).1.ports d.id
+          (createdFor cfg ((putPorts cfg lc clearFirst st pre).1.ports d.id) d) ∧
+      (∀ x, x ∉ pre.map (·.id) →
+        (putPorts cfg lc clearFirst st pre).1.ports x = startPort clearFirst (st.ports x)) :=
+  let ⟨pre, d, post, e1, e2, e3, e4, e5⟩ :=
+    putBody_first_failing cfg lc (fun id => startPort clearFirst (st.ports id)) docs id e h
+  ⟨pre, d, post, e1, e2, e3, e4, e5, fun x hx => putBody_other cfg lc _ pre x hx⟩
+
+/-- **the switches along the try/finally of PUT /ports** (any document, any state, repaired or not, any loop check,
+ANY outcome of the body — including an error at any entry). On the small-step trace of the call
+(`Proofs/BackupTrace.lean`: states after `disable`, after the reset phase and after every entry the loop got to;
+then the `finally:` applied to the last of them):
+* the trace starts in the state the request found and ENDS exactly where the executable model `putPorts` ends —
+  same final state, same response;
+* in EVERY state between `disable` and `finally` polling and event delivery are OFF (a body step rewrites the port
+  registry only; the values are carried, not re-asserted);
+* the intermediate states are the executable model's: the state recorded after the `k + 1`-th entry carries the
+  registry `putPorts` leaves on the first `k + 1` entries;
+* after the `finally:` both are ON — also when the body raised;
+* the loop got to all entries of an accepted document, and to exactly the accepted prefix plus the failing entry of
+  a rejected one (the exception leaves the loop; the `finally:` still runs).
+That the CODE's `finally:` does what `switchesOn` does is checked by the harness probe (after a rejected document a
+driver-side change is still polled and still raises a value-change event), not by this theorem. -/
+theorem switches_off_during_restore_and_on_afterwards (cfg : Cfg) (lc : LoopCheck) (clearFirst : Bool) (st : BState)
+    (docs : List PortDoc) :
+    (putPortsTrace cfg lc clearFirst st docs).before = st ∧
+    ((putPortsTrace cfg lc clearFirst st docs).after, (putPortsTrace cfg lc clearFirst st docs).resp) =
+      putPorts cfg lc clearFirst st docs ∧
+    (∀ s ∈ (putPortsTrace cfg lc clearFirst st docs).during, s.updating = false ∧ s.events = false) ∧
+    (putPortsTrace cfg lc clearFirst st docs).during ≠ [] ∧
+    (∀ k s, (putPortsTrace cfg lc clearFirst st docs).during[k + 2]? = some s →
+      s.ports = (putPorts cfg lc clearFirst st (docs.take (k + 1))).1.ports) ∧
+    ((putPortsTrace cfg lc clearFirst st docs).after.updating = true ∧
+      (putPortsTrace cfg lc clearFirst st docs).after.events = true) ∧
+    ((putPorts cfg lc clearFirst st docs).2 = .ok →
+      (putPortsTrace cfg lc clearFirst st docs).during.length = 2 + docs.length) ∧
+    (∀ id e, (putPorts cfg lc clearFirst st docs).2 = .err id e →
+      ∃ pre d post, docs = pre ++ d :: post ∧ d.id = id ∧
+        (putPortsTrace cfg lc clearFirst st docs).during.length = 2 + (pre.length + 1) ∧
+        (putPortsTrace cfg lc clearFirst st docs).after.updating = true ∧
+        (putPortsTrace cfg lc clearFirst st docs).after.events = true) := by
+  have hag := putPortsTrace_agrees cfg lc clearFirst st docs
+  have hresp : (putPortsTrace cfg lc clearFirst st docs).resp = (putPorts cfg lc clearFirst st docs).2 :=
+    congrArg Prod.snd hag
+  have hlen := bodyTrace_length cfg lc (resetPorts clearFirst (switchesOff st)) docs
+  refine ⟨rfl, hag, putPortsTrace_during_off cfg lc clearFirst st docs, ?_,
+    putPortsTrace_prefix cfg lc clearFirst st docs, ⟨rfl, rfl⟩, ?_, ?_⟩
+  · simp [putPortsTrace]
+  · intro h
+    rw [← hresp] at h
+    have := hlen.1 h
+    simp only [putPortsTrace, List.length_cons, this]
+    omega
+  · intro id e h
+    rw [← hresp] at h
+    obtain ⟨pre, d, post, e1, e2, _, e4⟩ := hlen.2 id e h
+    refine ⟨pre, d, post, e1, e2, ?_, rfl, rfl⟩
+    simp only [putPortsTrace, List.length_cons, e4]
+    omega
+
 /-- **a rejected document names the failing entry and the switches are back on** — for all three restore calls.
 PUT /ports (repaired or not, any loop check): whatever the document and the state, afterwards polling (`updating`) and
-event delivery (`events`) are enabled — the `finally:` — and an error carries the id of an entry of the document whose
-restore step failed. PUT /devices: the same switches are on afterwards, and an error carries the index of the FIRST
-entry that fails the entry schema (every earlier entry is acceptable). PUT /device: a rejected document changes
+event delivery (`events`) are enabled, and an error carries the id of an entry of the document whose restore step
+failed. HONEST READING of the two switch clauses here: they hold BY CONSTRUCTION of the big-step model (`putPorts` /
+`putSlavesDoc` write the constants `true`, the proof is `rfl`); the meaningful statement for PUT /ports — switches off
+in every intermediate state and on after the `finally:` on the success AND the error path — is
+`switches_off_during_restore_and_on_afterwards`, and the tie to the code's `finally:` is the harness probe (a
+driver-side change after a rejected document is still polled and still raises an event). Likewise the entry clause
+here is existential over SOME expression map and target; the statement about the FIRST failing entry on the ACTUAL
+intermediate state is `reject_names_first_failing_entry` (this clause is now derived from it).
+PUT /devices: the same switches are on afterwards (by construction, as above), and an error carries the index of the
+FIRST entry that fails the entry schema (every earlier entry is acceptable). PUT /device: a rejected document changes
 nothing at all — it validates before it touches anything and never uses the switches. -/
 theorem reject_names_entry_and_reenables (cfg : Cfg) (lc : LoopCheck) (clearFirst : Bool) (st : BState)
     (docs : List PortDoc) (sdocs : List (Option (String × Slave))) (ddoc : Option DeviceDoc) :
@@ -88,7 +306,9 @@ theorem reject_names_entry_and_reenables (cfg : Cfg) (lc : LoopCheck) (clearFirs
       ∀ i, (putSlavesDoc st sdocs).2 = .err i →
         sdocs[i]? = some none ∧ ∀ m, m < i → ∃ x, sdocs[m]? = some (some x)) ∧
     ((putDeviceDoc st ddoc).2 = false → (putDeviceDoc st ddoc).1 = st) := by
-  refine ⟨⟨rfl, rfl, fun id e h => putBody_err_names_entry cfg lc _ docs id e h⟩, ⟨rfl, rfl, ?_⟩, ?_⟩
+  refine ⟨⟨rfl, rfl, fun id e h => ?_⟩, ⟨rfl, rfl, ?_⟩, ?_⟩
+  · obtain ⟨pre, d, post, e1, e2, _, e4, _⟩ := reject_names_first_failing_entry cfg lc clearFirst st docs id e h
+    exact ⟨d, by rw [e1]; simp, e2, _, _, e4⟩
   · intro i h
     simp only [putSlavesDoc] at h
     cases hf : firstInvalid sdocs 0 with
@@ -258,5 +478,139 @@ theorem unrepaired_restore_rejected_by_stale_target_expression :
     errId (putPorts demoCfg (loopsWith witnessRefs 4) true witnessTarget
       (witnessSrc.map (fun x => docOf x.1 x.2))).2 = none := by
   constructor <;> decide +kernel
+
+/-! ### non-vacuity of the new statements -/
+
+def errOf : PutResp → Option (String × EntryErr)
+  | .err id e => some (id, e)
+  | .ok => none
+
+theorem errOf_some (r : PutResp) (id : String) (e : EntryErr) (h : errOf r = some (id, e)) : r = .err id e := by
+  cases r with
+  | ok => cases h
+  | err id' e' =>
+    simp only [errOf, Option.some.injEq, Prod.mk.injEq] at h
+    rw [h.1, h.2]
+
+/-- a target that holds an extra virtual port `vx` (not in any document below) and the virtual port `v1` -/
+def targetWithExtra : BState :=
+  { emptyState with ports := fun id => if id = "vx" ∨ id = "v1" then some demoPort else none }
+
+def badDocs : List PortDoc :=
+  [docOf "v1" demoPort, { id := "v2", virtual := true, vdef := none, attrs := [], value := none },
+   docOf "v3" demoPort]
+
+/-- the hypothesis of `reject_names_first_failing_entry` is met: the second entry of `badDocs` is refused -/
+example : (putPorts demoCfg (fun _ _ _ => false) true targetWithExtra badDocs).2 = .err "v2" .invalidDef :=
+  errOf_some _ _ _ (by decide +kernel)
+
+/-- `restore_roundtrip_outside_document` on it: `vx` is outside the document (hypothesis met) and is gone afterwards;
+`v1` was re-created by the accepted prefix, `v3` (behind the failing entry) was never reached -/
+example : "vx" ∉ badDocs.map (·.id) ∧
+    ((putPorts demoCfg (fun _ _ _ => false) true targetWithExtra badDocs).1.ports "vx").isSome = false ∧
+    ((putPorts demoCfg (fun _ _ _ => false) true targetWithExtra badDocs).1.ports "v1").isSome = true ∧
+    ((putPorts demoCfg (fun _ _ _ => false) true targetWithExtra badDocs).1.ports "v3").isSome = false := by
+  refine ⟨by decide, ?_, ?_, ?_⟩ <;> decide +kernel
+
+/-- the trace of that rejected call: `disable`, reset, entry `v1`, entry `v2` (raises) — four states, switches off in
+all of them although the target had them on; `v1` is already registered in the third; the `finally:` turns them on -/
+example :
+    ((putPortsTrace demoCfg (fun _ _ _ => false) true targetWithExtra badDocs).during.map
+      (fun s => (s.updating, s.events, (s.ports "vx").isSome, (s.ports "v1").isSome))) =
+      [(false, false, true, true), (false, false, false, false), (false, false, false, true),
+       (false, false, false, true)] ∧
+    (targetWithExtra.updating, targetWithExtra.events) = (true, true) ∧
+    ((putPortsTrace demoCfg (fun _ _ _ => false) true targetWithExtra badDocs).after.updating,
+     (putPortsTrace demoCfg (fun _ _ _ => false) true targetWithExtra badDocs).after.events) = (true, true) := by
+  refine ⟨?_, rfl, rfl⟩
+  decide +kernel
+
+theorem withExpr_attrs_other (t n : String) (h : n ≠ "expression") :
+    (withExpr t).attrs n = lookupF n exprPortDef.defaults := by
+  simp only [withExpr, setAttr, upd, h, if_false]
+  rfl
+
+theorem withExpr_attrs_expr (t : String) : ∃ c, (withExpr t).attrs "expression" = some (.str c) := by
+  by_cases ht : t = ""
+  · exact ⟨"", by simp [withExpr, setAttr, setVal, setText, kindOf, upd, fresh, exprPortDef, lookupF, ht]⟩
+  · exact ⟨t, by simp [withExpr, setAttr, setVal, setText, kindOf, upd, fresh, exprPortDef, lookupF, demoCfg, ht]⟩
+
+/-- same hardware, any two expressions: the target's port after the reset phase is compatible with the source's -/
+theorem compatible_withExpr (a b : String) : Compatible (clearExpr true (withExpr a)) (withExpr b) := by
+  obtain ⟨ca, hca⟩ := withExpr_attrs_expr a
+  obtain ⟨cb, hcb⟩ := withExpr_attrs_expr b
+  have hte : (clearExpr true (withExpr a)).attrs "expression" = some (.str "") := by
+    simp only [clearExpr, if_true, hca, Option.map_some]
+  have hto : ∀ n, n ≠ "expression" → (clearExpr true (withExpr a)).attrs n = (withExpr b).attrs n := by
+    intro n hn
+    simp only [clearExpr, if_true, hn, if_false]
+    rw [withExpr_attrs_other a n hn, withExpr_attrs_other b n hn]
+  refine ⟨rfl, fun n => ?_, fun n v w h1 h2 => ?_⟩
+  · by_cases hn : n = "expression"
+    · subst hn; rw [hte, hcb]; rfl
+    · rw [hto n hn]
+  · by_cases hn : n = "expression"
+    · subst hn
+      rw [hte] at h2; rw [hcb] at h1
+      cases h1; cases h2; rfl
+    · rw [hto n hn, h1] at h2
+      cases h2
+      exact sameCtor_self v
+
+/-- **every hypothesis of `restore_get_ports_identical` (covering hypothesis included) is met by the witness pair**:
+well-formed source ports, a target running the same static configuration with DIFFERENT (and, for the unrepaired code,
+fatal) expressions, a monotone loop check, an acyclic source — so its conclusions hold of it -/
+example : (witnessSrc.map (·.1)).Nodup ∧
+    (∀ x ∈ witnessSrc, WF demoCfg x.2 ∧ TargetOK demoCfg (witnessTarget.ports x.1) x.2) ∧
+    (∀ id p, witnessTarget.ports id = some p → p.pdef.virtual = false → id ∈ witnessSrc.map (·.1)) := by
+  have hc : CanonOK demoCfg := by
+    intro k t c h
+    simp only [demoCfg, Option.some.injEq] at h ⊢
+  have hd : DefWF demoCfg exprPortDef := by
+    refine ⟨by decide, ?_⟩
+    intro n v h old
+    simp only [exprPortDef, lookupF] at h
+    by_cases h1 : "enabled" = n
+    · subst h1
+      simp only [if_true, Option.some.injEq] at h
+      subst h; rfl
+    · simp only [h1, if_false] at h
+      by_cases h2 : "expression" = n
+      · subst h2
+        simp only [if_true, Option.some.injEq] at h
+        subst h; rfl
+      · simp only [h2, if_false] at h
+        cases h
+  have hw : ∀ t, WF demoCfg (withExpr t) := fun t => setAttr_wf demoCfg hc _ _ _ (fresh_wf demoCfg _ hd)
+  refine ⟨by decide, ?_, ?_⟩
+  · intro x hx
+    simp only [witnessSrc, List.mem_cons, List.not_mem_nil, or_false] at hx
+    rcases hx with rfl | rfl
+    · exact ⟨hw _, Or.inr ⟨clearExpr true (withExpr ""), rfl, compatible_withExpr _ _⟩⟩
+    · exact ⟨hw _, Or.inr ⟨clearExpr true (withExpr "$p"), rfl, compatible_withExpr _ _⟩⟩
+  · intro id p h _
+    simp only [witnessTarget] at h
+    by_cases h1 : id = "p"
+    · subst h1; decide
+    · by_cases h2 : id = "q"
+      · subst h2; decide
+      · simp only [h1, h2, if_false] at h
+        cases h
+
+/-! ### what is missing: peripherals
+
+The frontend's backup also saves GET /peripherals and restores it with PUT /peripherals (peripheral ports re-created
+from their driver definitions). Neither call is in `Model.Backup`; the harness does not exercise them either. The
+clause a complete C20 would need, over an ABSTRACT peripherals API (nothing below is instantiated or proved): -/
+
+/-- NOT PROVED, NOT INSTANTIATED — names the clause that is missing from the statements above. `Hub`: hub states;
+`getPeripherals` / `putPeripherals`: GET and PUT /peripherals; `getPorts`: GET /ports. A full-strength round trip would
+say: restoring the peripherals document of the source onto any target reproduces that document, and the ports document
+of a peripherals-then-ports restore equals the source's. -/
+def restoreRoundtripWithPeripheralsFull (Hub PDoc PortsDoc : Type) (getPeripherals : Hub → PDoc)
+    (putPeripherals : Hub → PDoc → Hub) (getPorts : Hub → PortsDoc) (putPorts : Hub → PortsDoc → Hub) : Prop :=
+  ∀ src tgt : Hub,
+    getPeripherals (putPeripherals tgt (getPeripherals src)) = getPeripherals src ∧
+    getPorts (putPorts (putPeripherals tgt (getPeripherals src)) (getPorts src)) = getPorts src
 
 end QtVerif.C20
